@@ -110,16 +110,6 @@ TabStep == /\ pc = "tab"
               ELSE dd' = S!DTab(tb, cx.n, cx.nm) /\ pc' = "scal" /\ UNCHANGED <<tb, r>>
            /\ UNCHANGED <<l, scripts, abs, chal, rng, mi, cfg, wtid, cx, sc, acc, wts>>
 Rsp(i) == [r1 |-> Mem(i).r1, s1 |-> Mem(i).s1, d1 |-> Mem(i).d1]
-Scal == /\ pc = "scal"
-        /\ sc' = S!Scal(tb, dd, cx, Rsp(mi), cx.nm)
-        /\ wts' = IF Is("VMSM") THEN Append(wts, FSub(Zero21, Rec[l].per[mi].oB)) ELSE wts      \* the weight is DEFINED by the scalar on B
-        /\ pc' = IF Is("VMSM") THEN "acc" ELSE "rec" /\ UNCHANGED <<l, scripts, abs, chal, rng, mi, r, cfg, wtid, cx, tb, dd, acc>>
-\* RecoverOnly: only the recovery equation, member by member
-RecStep == /\ pc = "rec"
-           /\ MaskOk(Mem(mi))
-           /\ IF mi < NP THEN mi' = mi + 1 /\ pc' = "red" /\ UNCHANGED l
-              ELSE mi' = mi /\ pc' = "run" /\ l' = l + 1
-           /\ UNCHANGED <<scripts, abs, chal, rng, r, cfg, wtid, cx, tb, dd, sc, acc, wts>>
 \* mask recovery as an equation without inverses (C09, C10): the recovered value m_k is the unique solution of
 \*   d1_k = eta_k + e*d_k + e^2 * (alpha_k + sum_j (e_j^2 dL_jk + e_j^-2 dR_jk) + m_k * z^2 * y^(nm+1))
 \* with the nonces derived from the VERIFIER's seed (right seed: the blinding factor; wrong seed: some other value)
@@ -132,6 +122,17 @@ MaskOk(mb) ==
        /\ \A kk \in 1..cx.t :
             mb.d1[kk] = FAdd(mb.nref.eta[kk], FAdd(FMul(cx.e, mb.nref.d[kk]),
                           FMul(sc.e2, FAdd(FAdd(mb.nref.alpha[kk], SumLRn(mb.nref, kk, 1)), FMul(mb.mask[kk], FMul(sc.z2, sc.ynm1))))))
+Scal == /\ pc = "scal"
+        /\ sc' = S!Scal(tb, dd, cx, Rsp(mi), cx.nm)
+        /\ wts' = (IF Is("VMSM") THEN Append(wts, FSub(Zero21, Rec[l].per[mi].oB)) ELSE wts)    \* the weight is DEFINED by the scalar on B
+        /\ pc' = (IF Is("VMSM") THEN "acc" ELSE "rec")
+        /\ UNCHANGED <<l, scripts, abs, chal, rng, mi, r, cfg, wtid, cx, tb, dd, acc>>
+\* RecoverOnly: only the recovery equation, member by member
+RecStep == /\ pc = "rec"
+           /\ MaskOk(Mem(mi))
+           /\ IF mi < NP THEN mi' = mi + 1 /\ pc' = "red" /\ UNCHANGED l
+              ELSE mi' = mi /\ pc' = "run" /\ l' = l + 1
+           /\ UNCHANGED <<scripts, abs, chal, rng, r, cfg, wtid, cx, tb, dd, sc, acc, wts>>
 \* weight provenance: a non-zero reduction of an output of the weight generator
 WeightFills == UNION { {rng[rid].fills[f].wide : f \in 1..Len(rng[rid].fills)} : rid \in {x \in DOMAIN rng : rng[x].tid = wtid} }
 Acc == /\ pc = "acc"
